@@ -143,6 +143,28 @@ func (n *RealNode) SnapshotImage(name string) (string, bool) {
 	return string(buf), true
 }
 
+// OpensAfterDeath: if the replica process died right now, could a new process open the directory?  A byte copy of the
+// directory is opened with the real code (the running server is not touched).  Returns "" or what failed.
+func (n *RealNode) OpensAfterDeath() string {
+	if _, err := os.Stat(filepath.Join(n.dir, "volume.meta")); err != nil {
+		return "" // never created
+	}
+	cp := n.dir + "-reopen"
+	defer os.RemoveAll(cp)
+	if err := ea.CopyDir(n.dir, cp); err != nil {
+		panic("CopyDir: " + err.Error())
+	}
+	s2 := replica.NewServer("127.0.0.1:9703", cp, 512, "")
+	if err := s2.Open(); err != nil {
+		return "open: " + err.Error()
+	}
+	defer s2.Close()
+	if _, err := s2.Replica().Chain(); err != nil {
+		return "chain: " + err.Error()
+	}
+	return ""
+}
+
 func copySparse(src, dst string) error {
 	tmpS, tmpD := src+".cpdir", dst+".cpdir"
 	_ = tmpS
